@@ -26,7 +26,7 @@ import (
 func init() {
 	Register(&Rule{ID: "R-CUR-1", Props: []string{"C16"}, Floor: 9,
 		Doc:      "Cursor.view is stored only by Open (the result of a Select call), by Close (nil) and by constructors into a fresh Cursor (a fresh NewView); no other method of Cursor can reach Select in the call graph: a fetch never re-runs the query, the snapshot taken by OPEN is what FETCH reads",
-		Controls: []string{"CtlCursor).Count"},
+		Controls: []string{"CtlCursor).Count", "CtlCursor).reload"},
 		Run:      ruleCur1})
 	Register(&Rule{ID: "R-CUR-2", Props: []string{"C16"}, Floor: 4,
 		Doc:      "in every method of Cursor each dereference of the loaded c.view (field access, method call on it) is dominated by a test that showed this field non-nil; every store of a view in Open is dominated by the test that the cursor is closed, and the open branch of that test only reaches returns with a non-nil error",
@@ -147,13 +147,65 @@ func curIsSelectFn(p *core.Prog) func(*ssa.Function) bool {
 }
 
 // curViewOrigin describes where a stored view comes from.
-func curViewOrigin(p *core.Prog, v ssa.Value) (kinds map[string]bool) {
+func curViewOrigin(c *Ctx, v ssa.Value) (kinds map[string]bool) {
 	kinds = map[string]bool{}
-	curViewOriginInto(p, v, kinds, 0)
+	curViewOriginInto(c, v, kinds, 0)
 	return kinds
 }
 
-func curViewOriginInto(p *core.Prog, v ssa.Value, kinds map[string]bool, depth int) {
+// curViewOriginInto looks through Copy (a copy of a snapshot is a snapshot) and
+// through csvq helpers that merely return what they obtained (result #0 of a
+// helper is whatever its returns yield; its failure returns `nil, <non-nil
+// error>` yield nothing).
+func curViewOriginInto(c *Ctx, v ssa.Value, kinds map[string]bool, depth int) {
+	p := c.P
+	through := func(call *ssa.Call, idx int) bool {
+		g := core.StaticCallee(call)
+		if g == nil || g.Blocks == nil || depth >= 4 || p.FnRef(g) == "lib/query.Select" {
+			return false
+		}
+		if !(p.InPkg(g, "lib/query") || p.IsControl(g)) || idx >= g.Signature.Results().Len() {
+			return false
+		}
+		rets := core.Returns(g)
+		if len(rets) == 0 {
+			return false
+		}
+		errIdx := core.ErrorResultIndex(g)
+		sub := map[string]bool{}
+		for _, r := range rets {
+			vals := core.ReturnOperand(r, idx)
+			for _, rv := range vals {
+				if rv == nil {
+					sub["nil"] = true
+					continue
+				}
+				if core.IsNilConst(rv) && errIdx >= 0 && errIdx != idx {
+					failure := true
+					for _, ev := range core.ReturnOperand(r, errIdx) {
+						if ev == nil || curErrKind(c, ev, r) != core.NonNil {
+							failure = false
+						}
+					}
+					if failure {
+						continue // `return nil, err`: the caller does not get a view on this path
+					}
+				}
+				curViewOriginInto(c, rv, sub, depth+1)
+			}
+		}
+		// only pure forwarders are looked through: a helper that builds or loads
+		// the view itself stays the origin
+		for k := range sub {
+			if strings.HasPrefix(k, "other:") {
+				return false
+			}
+		}
+		for k := range sub {
+			kinds[k] = true
+		}
+		return true
+	}
 	for _, o := range core.Origins(v, false) {
 		switch x := o.(type) {
 		case *ssa.Const:
@@ -162,14 +214,22 @@ func curViewOriginInto(p *core.Prog, v ssa.Value, kinds map[string]bool, depth i
 				continue
 			}
 		case *ssa.Extract:
-			if call, ok := x.Tuple.(*ssa.Call); ok && x.Index == 0 {
-				kinds["call:"+p.CalleeName(call)] = true
-				continue
+			if call, ok := x.Tuple.(*ssa.Call); ok {
+				if through(call, x.Index) {
+					continue
+				}
+				if x.Index == 0 {
+					kinds["call:"+p.CalleeName(call)] = true
+					continue
+				}
 			}
 		case *ssa.Call:
 			// a copy of a snapshot is a snapshot
 			if p.CalleeName(x) == "lib/query.(*View).Copy" && len(x.Call.Args) == 1 && depth < 4 {
-				curViewOriginInto(p, x.Call.Args[0], kinds, depth+1)
+				curViewOriginInto(c, x.Call.Args[0], kinds, depth+1)
+				continue
+			}
+			if _, isTuple := x.Type().(*types.Tuple); !isTuple && through(x, 0) {
 				continue
 			}
 			kinds["call:"+p.CalleeName(x)] = true
@@ -177,6 +237,48 @@ func curViewOriginInto(p *core.Prog, v ssa.Value, kinds map[string]bool, depth i
 		}
 		kinds["other:"+valueLabel(o)] = true
 	}
+}
+
+// curOpenHelpers: methods of the cursor type whose every caller (in the call
+// graph) is Open or another such helper — they are part of Open.
+func curOpenHelpers(c *Ctx, ct *curType) map[*ssa.Function]bool {
+	helpers := map[*ssa.Function]bool{}
+	open := ct.methods["Open"]
+	if open == nil {
+		return helpers
+	}
+	outer := func(f *ssa.Function) *ssa.Function {
+		for f != nil && f.Parent() != nil {
+			f = f.Parent()
+		}
+		return f
+	}
+	for changed := true; changed; {
+		changed = false
+		for _, mn := range ct.sortedMethods() {
+			fn := ct.methods[mn]
+			if fn == open || helpers[fn] {
+				continue
+			}
+			edges := c.P.Callers(fn)
+			n, all := 0, true
+			for _, e := range edges {
+				caller := outer(e.Caller.Func)
+				if caller == fn {
+					continue
+				}
+				n++
+				if caller != open && !helpers[caller] {
+					all = false
+				}
+			}
+			if n > 0 && all {
+				helpers[fn] = true
+				changed = true
+			}
+		}
+	}
+	return helpers
 }
 
 func curKindList(k map[string]bool) string {
@@ -189,16 +291,19 @@ func curKindList(k map[string]bool) string {
 }
 
 func ruleCur1(c *Ctx) {
+	start := len(c.Obs)
+	defer func() { c.negControls(start, "OkCursor).Open", "OkCursor).selectView") }()
 	cts := curTypes(c)
 	for _, ct := range cts {
 		owner := ct.field("view")
 		open, closeFn := ct.methods["Open"], ct.methods["Close"]
+		helpers := curOpenHelpers(c, ct)
 		for _, fn := range c.P.SrcFuncs() {
 			sts := curStoresToField(fn, owner)
 			for i, st := range sts {
 				c.Touch(fn)
 				key := c.KeyAt(fn, fmt.Sprintf("store #%d to %s", i+1, owner))
-				kinds := curViewOrigin(c.P, st.Val)
+				kinds := curViewOrigin(c, st.Val)
 				base := st.Addr.(*ssa.FieldAddr).X
 				_, fresh := base.(*ssa.Alloc)
 				switch {
@@ -228,6 +333,10 @@ func ruleCur1(c *Ctx) {
 			}
 			c.Touch(fn)
 			key := c.KeyAt(fn, "cannot reach Select")
+			if helpers[fn] {
+				c.Ok(key, c.FnPos(fn), "every caller of this method is Open (or another helper of Open): it is part of Open")
+				continue
+			}
 			c.Check(!c.P.FnReaches(fn, curIsSelectFn(c.P)), key, c.FnPos(fn), "Select is not reachable in the call graph", fmt.Sprintf("%s can reach Select: the cursor's rows could be recomputed after OPEN (rows fetched so far and rows to come would belong to different snapshots)", c.P.Name(fn)))
 		}
 		if open == nil && !ct.control {
